@@ -35,6 +35,22 @@ class Collector:
         self.trusted = set()
         self.default_replay = None
 
+    def _replay(self, fn, d):
+        """run a replay; replays that do not look at the obligation (they re-run the property's concrete check) run once per task"""
+        import inspect
+        import re
+        cache = self.__dict__.setdefault('_rcache', {})
+        try:
+            body = inspect.getsource(fn).split('\n', 1)[1]
+            uses = re.search(r'\b%s\b' % list(inspect.signature(fn).parameters)[0], body) is not None
+        except Exception:
+            uses = True
+        if uses:
+            return fn(d)
+        if fn not in cache:
+            cache[fn] = fn(d)
+        return dict(cache[fn])
+
     def function(self, qualname):
         node, seg, sha = intake.func(qualname)
         self.functions[qualname] = sha
@@ -60,7 +76,7 @@ class Collector:
         replay = replay or self.default_replay
         if d['status'] == 'refuted' and replay is not None:
             try:
-                d['replay'] = replay(d)
+                d['replay'] = self._replay(replay, d)
             except Exception as e:         # replay trouble must not turn into a verdict
                 d['replay'] = dict(reproduced=False, error=f'{type(e).__name__}: {e}')
         return d
@@ -112,7 +128,7 @@ class Collector:
         replay = replay or self.default_replay
         if d['status'] == 'refuted' and replay is not None:
             try:
-                d['replay'] = replay(d)
+                d['replay'] = self._replay(replay, d)
             except Exception as e:
                 d['replay'] = dict(reproduced=False, error=f'{type(e).__name__}: {e}')
         return d
@@ -206,9 +222,10 @@ def load_json(path, default):
 def run_property(prop, tasks, tier, seed, level_text, assumptions, update_ledger=False, nproc=None, partial=False):
     t0 = time.time()
     nproc = nproc or min(16, max(1, len(tasks)))
-    ctx = mp.get_context('fork')
-    with ctx.Pool(nproc) as pool:
-        outs = pool.map(_run_task, tasks, chunksize=1)
+    # non-daemonic workers: concrete checks of the real code may start worker processes of their own (C11)
+    from concurrent.futures import ProcessPoolExecutor
+    with ProcessPoolExecutor(max_workers=nproc, mp_context=mp.get_context('fork')) as pool:
+        outs = list(pool.map(_run_task, tasks, chunksize=1))
     results, functions, trusted, errors = [], {}, set(), []
     for o in outs:
         results.extend(o['results'])
